@@ -82,6 +82,67 @@ func (c *c09PCol) SetStatus(r string, err error) {
 //
 // so "1u:1" is a lower-casing modifier, "1i:1x" a conversion to A-labels, "1d:1c" a normalisation.
 // The same client token may occur several times (the client sends one address twice).
+//
+// Optional 6th token: a NESTED pipeline behind the outer one,
+//
+//	<K><p>:<routed>:<inner spec>
+//
+// K = R (`reroute { ... }`: a *MsgPipeline as target) or M (`deliver_to &pipeline`: the msgpipeline
+// module wrapping one); p = placement of the INNER rewriting modifier (g/s/r); routed = `*` (the outer
+// default destination block hands everything to the nested pipeline) or a `+` list of tokens: the
+// outer pipeline gets a per-address destination block for each of them (key = address.ForLookup, so
+// every spelling of that mailbox) whose target is the nested pipeline, everything else goes to a
+// direct target (the block is chosen BEFORE per-destination modifiers run: with outer placement r the
+// client-supplied address decides, otherwise the outer effective one); inner spec = `-` or
+// `<eff>:<fin>+<fin>,...`, the recipient rewrites of the inner pipeline. The failing ids of the 4th
+// token are FINAL addresses (what the target behind the last pipeline sees). The nested pipeline gets
+// the same *MsgMetadata as the outer one and is started lazily by the first recipient routed into it.
+//
+// Optional token `P<addr>:<orig>,...`: the MsgMetadata handed to Start already carries an
+// OriginalRcpts table (left by a pipeline the message went through BEFORE, e.g. in front of a queue whose
+// target this pipeline is): <addr> (a recipient this pipeline is given, or an address it produces) was
+// <orig> there. Those are not addresses THIS pipeline was given: no result may be reported under them.
+type c09PNest struct {
+	kind, place byte
+	all         bool
+	routed      map[string]bool     // address.ForLookup keys
+	rw          map[string][]string // inner rewrites
+}
+
+func c09PParseNest(tok string, nameOf map[string]string) *c09PNest {
+	f := strings.Split(tok, ":")
+	if len(f) < 3 || len(f[0]) != 2 {
+		return nil
+	}
+	n := &c09PNest{kind: f[0][0], place: f[0][1], routed: map[string]bool{}, rw: map[string][]string{}}
+	if f[1] == "*" {
+		n.all = true
+	} else {
+		for _, t := range strings.Split(f[1], "+") {
+			k, _ := address.ForLookup(c09PAddr(t))
+			n.routed[k] = true
+		}
+	}
+	inner := strings.Join(f[2:], ":")
+	if inner != "-" {
+		for _, part := range strings.Split(inner, ",") {
+			g := strings.Split(part, ":")
+			if len(g) != 2 || g[1] == "" {
+				continue
+			}
+			x := c09PAddr(g[0])
+			for _, e := range strings.Split(g[1], "+") {
+				a := c09PAddr(e)
+				if _, ok := nameOf[a]; !ok {
+					nameOf[a] = c09PName(e)
+				}
+				n.rw[x] = append(n.rw[x], a)
+			}
+		}
+	}
+	return n
+}
+
 func c09PTok(tok string) (int, byte) {
 	i := 0
 	for i < len(tok) && tok[i] >= '0' && tok[i] <= '9' {
@@ -192,6 +253,27 @@ func c09Pipe(out *vh.Out, op string) {
 		}
 		return "?" + vh.HexRunes(a)
 	}
+	var nest *c09PNest
+	var pre map[string]string
+	for _, tk := range toks[min(5, len(toks)):] {
+		switch tk[0] {
+		case 'R', 'M':
+			nest = c09PParseNest(tk, nameOf)
+		case 'P':
+			pre = map[string]string{}
+			for _, e := range strings.Split(tk[1:], ",") {
+				g := strings.Split(e, ":")
+				if len(g) == 2 {
+					o := c09PAddr(g[1])
+					pre[c09PAddr(g[0])] = o
+					if _, ok := nameOf[o]; !ok {
+						nameOf[o] = c09PName(g[1])
+					}
+				}
+			}
+			out.Stat("pipe.metadata-with-table-of-an-earlier-pipeline")
+		}
+	}
 	tgt := &c09PTarget{fail: fail}
 	mod := testutils.Modifier{InstName: "verif_rewrite", RcptTo: rw}
 	// where the rewriting modifier sits: g = global, s = source block, r = recipient block
@@ -207,6 +289,39 @@ func c09Pipe(out *vh.Out, op string) {
 			defaultRcpt: &rcptBlock{targets: []module.DeliveryTarget{tgt}},
 		},
 	}
+	if nest != nil {
+		// the nested pipeline: its own rewriting modifier, its own per-recipient target
+		igrp := modify.Group{Modifiers: []module.Modifier{testutils.Modifier{InstName: "verif_rewrite_inner", RcptTo: nest.rw}}}
+		icfg := msgpipelineCfg{
+			perSource: map[string]sourceBlock{},
+			defaultSource: sourceBlock{
+				perRcpt:     map[string]*rcptBlock{},
+				defaultRcpt: &rcptBlock{targets: []module.DeliveryTarget{&c09PTarget{fail: fail}}},
+			},
+		}
+		switch nest.place {
+		case 'g':
+			icfg.globalModifiers = igrp
+		case 's':
+			icfg.defaultSource.modifiers = igrp
+		default:
+			icfg.defaultSource.defaultRcpt.modifiers = igrp
+		}
+		inner := &MsgPipeline{msgpipelineCfg: icfg, Log: log.Logger{Out: log.NopOutput{}}}
+		var ntgt module.DeliveryTarget = inner
+		if nest.kind == 'M' {
+			ntgt = &Module{instName: "verif_nested", MsgPipeline: inner}
+		}
+		if nest.all {
+			cfg.defaultSource.defaultRcpt = &rcptBlock{targets: []module.DeliveryTarget{ntgt}}
+		} else {
+			for k := range nest.routed {
+				cfg.defaultSource.perRcpt[k] = &rcptBlock{targets: []module.DeliveryTarget{ntgt}}
+			}
+		}
+		out.Stat("pipe.nested.kind." + string(rune(nest.kind)))
+		out.Stat("pipe.nested.inner-place." + string(rune(nest.place)))
+	}
 	switch place {
 	case "g":
 		cfg.globalModifiers = grp
@@ -214,11 +329,14 @@ func c09Pipe(out *vh.Out, op string) {
 		cfg.defaultSource.modifiers = grp
 	default:
 		cfg.defaultSource.defaultRcpt.modifiers = grp
+		for _, b := range cfg.defaultSource.perRcpt {
+			b.modifiers = grp
+		}
 	}
 	d := MsgPipeline{msgpipelineCfg: cfg, Log: log.Logger{Out: log.NopOutput{}}}
 	out.Stat("pipe.place." + place)
 	ctx := context.Background()
-	delivery, err := d.Start(ctx, &module.MsgMetadata{ID: "verif"}, "sender@example.com")
+	delivery, err := d.Start(ctx, &module.MsgMetadata{ID: "verif", OriginalRcpts: pre}, "sender@example.com")
 	if err != nil {
 		out.Corr(op, "start-error")
 		return
@@ -267,17 +385,73 @@ func c09Pipe(out *vh.Out, op string) {
 			out.Violation("C09/pipeline-status-under-effective-address", op, "result reported under "+name(k)+" ("+vh.HexRunes(k)+") which the client never supplied (as given); "+shown)
 		}
 	}
-	// each client-supplied recipient gets one result per effective recipient it was expanded to, per
-	// AddRcpt call with it (collisions of two DIFFERENT client addresses on one effective address are
-	// the known finding KF-C09-1)
+	// each client-supplied recipient gets one result per FINAL effective recipient it was expanded to
+	// (through the outer and, when routed there, the nested pipeline), per AddRcpt call with it
+	// (collisions of two DIFFERENT client addresses on one effective address are the known finding KF-C09-1)
+	type fin struct{ tgt, addr string }
+	finOf := map[string][]fin{}
+	firstNested := ""
+	for _, c := range distinct {
+		for _, e := range effOf[c] {
+			look := e
+			if place == "r" {
+				look = c // the destination block is chosen before its modifiers rewrite the address
+			}
+			routed := false
+			if nest != nil {
+				k, _ := address.ForLookup(look)
+				routed = nest.all || nest.routed[k]
+			}
+			switch {
+			case !routed:
+				finOf[c] = append(finOf[c], fin{"D", e})
+			case len(nest.rw[e]) > 0:
+				for _, y := range nest.rw[e] {
+					finOf[c] = append(finOf[c], fin{"N", y})
+				}
+				out.Stat("pipe.nested.rewritten-again-by-inner")
+			default:
+				finOf[c] = append(finOf[c], fin{"N", e})
+			}
+			if routed && e != c {
+				out.Stat("pipe.nested.outer-rewritten-recipient-routed-into-nest")
+			}
+		}
+	}
+	if nest != nil {
+		for _, c := range clients { // AddRcpt order
+			for _, f := range finOf[c] {
+				if f.tgt == "N" && firstNested == "" {
+					firstNested = c
+					if len(effOf[c]) != 1 || effOf[c][0] != c {
+						out.Stat("pipe.nested.started-by-a-rewritten-recipient")
+					} else {
+						out.Stat("pipe.nested.started-by-an-unrewritten-recipient")
+					}
+				}
+			}
+		}
+		if firstNested == "" {
+			out.Stat("pipe.nested.never-started")
+		}
+	}
 	collide := map[string]int{}
+	collideFin := map[fin]int{}
 	for _, c := range distinct {
 		for _, e := range effOf[c] {
 			collide[e]++
 		}
+		for _, f := range finOf[c] {
+			collideFin[f]++
+		}
 	}
 	anyCollision := false
 	for _, n := range collide {
+		if n > 1 {
+			anyCollision = true
+		}
+	}
+	for _, n := range collideFin {
 		if n > 1 {
 			anyCollision = true
 		}
@@ -292,9 +466,12 @@ func c09Pipe(out *vh.Out, op string) {
 	}
 	if chained {
 		out.Stat("pipe.rewritten-to-another-client-address")
+		if firstNested != "" {
+			out.Stat("pipe.nested.with-rewrite-to-another-client-address")
+		}
 	}
 	for _, c := range distinct {
-		want := occ[c] * len(effOf[c])
+		want := occ[c] * len(finOf[c])
 		if got[c] != want {
 			sig := "C09/pipeline-result-count"
 			for _, e := range effOf[c] {
@@ -302,7 +479,12 @@ func c09Pipe(out *vh.Out, op string) {
 					sig = "C09/pipeline-alias-collision-result-misfiled"
 				}
 			}
-			out.Violation(sig, op, fmt.Sprintf("client recipient %s (sent %d times) expanded to %d effective recipients, %d results; %s", name(c), occ[c], len(effOf[c]), got[c], shown))
+			for _, f := range finOf[c] {
+				if collideFin[f] > 1 {
+					sig = "C09/pipeline-alias-collision-result-misfiled"
+				}
+			}
+			out.Violation(sig, op, fmt.Sprintf("client recipient %s (sent %d times) expanded to %d effective recipients, %d results; %s", name(c), occ[c], len(finOf[c]), got[c], shown))
 			continue
 		}
 		if anyCollision {
@@ -311,8 +493,8 @@ func c09Pipe(out *vh.Out, op string) {
 		// the results filed under a client-supplied recipient are those of ITS effective recipients
 		var wantVals []string
 		for k := 0; k < occ[c]; k++ {
-			for _, e := range effOf[c] {
-				if fail[e] {
+			for _, f := range finOf[c] {
+				if fail[f.addr] {
 					wantVals = append(wantVals, "f")
 				} else {
 					wantVals = append(wantVals, "o")
@@ -427,6 +609,158 @@ func c09PGenRespell(r *vh.Rng, out *vh.Out) (parts, effs []string) {
 		parts[k], parts[j] = parts[j], parts[k]
 	}
 	return parts, effs
+}
+
+// c09PGenNest puts a nested pipeline behind the outer one described by parts: which recipients are
+// routed into it (all, or those of a random non-empty subset of the addresses the outer pipeline
+// chooses the destination block by), and what the inner pipeline rewrites them to (nothing, a fresh
+// address, two, another spelling of the same mailbox, or - rarely - the address of a client recipient
+// that itself stays outside the nested pipeline). Every address a target sees stays unique (not the
+// collision of KF-C09-1). Returns the token and the FINAL effective tokens.
+func c09PGenNest(r *vh.Rng, out *vh.Out, parts []string, place string) (string, []string) {
+	type path struct{ c, x string }
+	var paths []path
+	used := map[string]bool{}
+	seen := map[string]bool{}
+	var clientToks []string
+	for _, p := range parts {
+		f := strings.Split(p, ":")
+		if seen[f[0]] {
+			continue
+		}
+		seen[f[0]] = true
+		clientToks = append(clientToks, f[0])
+		used[c09PAddr(f[0])] = true
+		es := []string{f[0]}
+		if f[1] != "" {
+			es = strings.Split(f[1], "+")
+		}
+		for _, x := range es {
+			paths = append(paths, path{f[0], x})
+			used[c09PAddr(x)] = true
+		}
+	}
+	lookOf := func(p path) string {
+		if place == "r" {
+			return p.c
+		}
+		return p.x
+	}
+	key := func(tok string) string { k, _ := address.ForLookup(c09PAddr(tok)); return k }
+	var look []string
+	lseen := map[string]bool{}
+	for _, p := range paths {
+		if l := lookOf(p); !lseen[key(l)] {
+			lseen[key(l)] = true
+			look = append(look, l)
+		}
+	}
+	all := r.Chance(40)
+	routedKeys := map[string]bool{}
+	var routedToks []string
+	if !all {
+		k := 1 + r.Intn(len(look))
+		for _, i := range c09PPerm(r, len(look))[:k] {
+			routedToks = append(routedToks, look[i])
+			routedKeys[key(look[i])] = true
+		}
+	}
+	isRouted := func(p path) bool { return all || routedKeys[key(lookOf(p))] }
+	fams := []string{"auUD", "ixIX", "cdC"}
+	next := 40
+	var inner, finals []string
+	doneX := map[string]bool{}
+	for _, p := range paths {
+		if !isRouted(p) {
+			finals = append(finals, p.x)
+			continue
+		}
+		if doneX[p.x] {
+			continue
+		}
+		doneX[p.x] = true
+		if !r.Chance(55) {
+			finals = append(finals, p.x)
+			continue
+		}
+		n := 1
+		if r.Chance(25) {
+			n = 2
+		}
+		var tg []string
+		for i := 0; i < n; i++ {
+			tok := ""
+			switch {
+			case r.Chance(30):
+				// another spelling of the mailbox the outer pipeline produced
+				num, form := c09PTok(p.x)
+				if form == 0 {
+					form = 'a'
+				}
+				for _, fam := range fams {
+					if strings.IndexByte(fam, form) < 0 {
+						continue
+					}
+					f := fam[r.Intn(len(fam))]
+					t := strconv.Itoa(num)
+					if f != 'a' {
+						t += string(rune(f))
+					}
+					if !used[c09PAddr(t)] {
+						tok = t
+					}
+				}
+			case r.Chance(35):
+				// the address of a client recipient that does not enter the nested pipeline itself
+				for _, t := range clientToks {
+					ok := !used[c09PAddr(t)+"#fin"]
+					for _, q := range paths {
+						if (q.c == t && isRouted(q)) || (isRouted(q) && c09PAddr(q.x) == c09PAddr(t)) {
+							ok = false
+						}
+					}
+					if ok {
+						tok = t
+						used[c09PAddr(t)+"#fin"] = true
+						out.Stat("pipe.nested.inner-rewrites-to-a-client-address-outside-the-nest")
+						break
+					}
+				}
+			}
+			if tok == "" {
+				next++
+				tok = strconv.Itoa(next)
+				if r.Chance(20) {
+					tok += string(rune("uUDixc"[r.Intn(6)]))
+				}
+			}
+			used[c09PAddr(tok)] = true
+			tg = append(tg, tok)
+		}
+		inner = append(inner, p.x+":"+strings.Join(tg, "+"))
+		finals = append(finals, tg...)
+	}
+	rt := "*"
+	if !all {
+		rt = strings.Join(routedToks, "+")
+	}
+	in := "-"
+	if len(inner) > 0 {
+		in = strings.Join(inner, ",")
+	}
+	return fmt.Sprintf("%c%c:%s:%s", "RM"[r.Intn(2)], "gsr"[r.Intn(3)], rt, in), finals
+}
+
+func c09PPerm(r *vh.Rng, n int) []int {
+	p := make([]int, n)
+	for i := range p {
+		p[i] = i
+	}
+	for i := n - 1; i > 0; i-- {
+		j := r.Intn(i + 1)
+		p[i], p[j] = p[j], p[i]
+	}
+	return p
 }
 
 func TestVerifC09Pipeline(t *testing.T) {
@@ -552,6 +886,13 @@ func TestVerifC09Pipeline(t *testing.T) {
 				parts[j] = parts[k]
 			}
 		}
+		// a nested pipeline behind the outer one (reroute / pipeline as a target)
+		place := r.Pick("g", "s", "r")
+		nestTok := ""
+		if !collision && r.Chance(45) {
+			nestTok, effs = c09PGenNest(r, out, parts, place)
+			nestTok = " " + nestTok
+		}
 		var fails []string
 		for _, e := range effs {
 			if r.Chance(30) {
@@ -562,6 +903,28 @@ func TestVerifC09Pipeline(t *testing.T) {
 		if len(fails) > 0 {
 			fs = strings.Join(fails, ",")
 		}
-		c09Pipe(out, fmt.Sprintf("C09 pipe %s %s %s", strings.Join(parts, ","), fs, r.Pick("g", "s", "r")))
+		// the metadata already carries the table of a pipeline the message went through earlier
+		preTok := ""
+		if r.Chance(20) {
+			var es []string
+			seen := map[string]bool{}
+			for _, p := range parts {
+				f := strings.Split(p, ":")
+				cands := []string{f[0]}
+				if f[1] != "" && r.Chance(30) {
+					cands = append(cands, strings.Split(f[1], "+")...)
+				}
+				for _, a := range cands {
+					if !seen[a] && r.Chance(70) {
+						es = append(es, fmt.Sprintf("%s:%d", a, 60+len(es)))
+					}
+					seen[a] = true
+				}
+			}
+			if len(es) > 0 {
+				preTok = " P" + strings.Join(es, ",")
+			}
+		}
+		c09Pipe(out, fmt.Sprintf("C09 pipe %s %s %s%s%s", strings.Join(parts, ","), fs, place, nestTok, preTok))
 	}
 }
